@@ -22,6 +22,13 @@ theorem sum_eq (l : List Int) : Py.sum l = l.sum := by
 @[simp] theorem sum_cons (x : Int) (xs : List Int) : Py.sum (x :: xs) = x + Py.sum xs := by
   simp [sum_eq]
 
+theorem itertoolsR_nonneg (r : Int) (h : 0 ≤ r) : Py.itertoolsR r = .ok r.toNat := by
+  have : ¬ (r < 0) := by omega
+  simp [Py.itertoolsR, this]
+
+theorem itertoolsR_neg (r : Int) (h : r < 0) : Py.itertoolsR r = .error .valueError := by
+  simp [Py.itertoolsR, h]
+
 /-- `l[-1]` of a non-empty list -/
 theorem index_neg_one {α : Type} (l : List α) (a : α) : Py.index (l ++ [a]) (-1) = .ok a := by
   simp [Py.index]; omega
